@@ -292,7 +292,7 @@ pub fn degenerate() -> Inputs {
     out
 }
 
-pub const IMPORT_ITEMS: [&str; 9] = ["a", "b", "c", "a as x", "b as a", "c as c", "a.b", "a.b as d", "B"];
+pub const IMPORT_ITEMS: [&str; 10] = ["a", "b", "c", "a as x", "b as a", "c as c", "a.b", "a.b as d", "B", "a as y"];
 
 /// All import statements of the bounded alphabet (DESIGN §5 C19). `max_items` <= 4.
 pub fn imports(max_items: usize, trivia: &[(&str, &str)]) -> Inputs {
@@ -345,6 +345,19 @@ pub fn imports(max_items: usize, trivia: &[(&str, &str)]) -> Inputs {
                     out.push((format!("import:{cn}:{sn}"), base.clone()));
                 }
             }
+            // blanks inside an item (the sort key must not depend on them)
+            if items.len() >= 2 && items.len() <= 3 && mi == 0 {
+                for pos in 0..items.len() {
+                    if !items[pos].contains(" as ") {
+                        continue;
+                    }
+                    let mut v: Vec<String> = items.iter().map(|s| s.to_string()).collect();
+                    v[pos] = v[pos].replace(" as ", "  as ");
+                    out.push(("import:markup:inner-blanks".to_string(), format!("#import \"m.typ\": {}", v.join(", "))));
+                    v[pos] = items[pos].replace(" as ", " as  ");
+                    out.push(("import:markup:inner-blanks".to_string(), format!("#import \"m.typ\": {}", v.join(", "))));
+                }
+            }
             // one trivia deviation after each item separator (comments make the statement keep its order)
             if items.len() >= 2 && items.len() <= 3 && mi == 0 {
                 for (tn, t) in trivia {
@@ -364,6 +377,47 @@ pub fn imports(max_items: usize, trivia: &[(&str, &str)]) -> Inputs {
                     }
                 }
             }
+        }
+    }
+    out
+}
+
+/// Whitespace spellings: every sequence of <= 3 elements over {LF, CR, CRLF, space, tab, LS}
+/// and long runs of line feeds (counter widths: 255, 256, 257, 65 536 ...), placed between two
+/// words in every markup-bearing context and between code / math items.
+pub fn ws_spellings() -> Inputs {
+    let elems: [(&str, &str); 6] = [("LF", "\n"), ("CR", "\r"), ("CRLF", "\r\n"), ("SP", " "), ("TAB", "\t"), ("LS", "\u{2028}")];
+    let mut spellings: Vec<(String, String)> = vec![];
+    let mut cur: Vec<(String, String)> = vec![(String::new(), String::new())];
+    for _ in 0..3 {
+        let mut next = vec![];
+        for (l, t) in &cur {
+            for (en, et) in elems {
+                next.push((if l.is_empty() { en.to_string() } else { format!("{l}.{en}") }, format!("{t}{et}")));
+            }
+        }
+        spellings.extend(next.iter().cloned());
+        cur = next;
+    }
+    for n in [4usize, 5, 16, 255, 256, 257, 1000, 65_535, 65_536, 65_537] {
+        spellings.push((format!("LFx{n}"), "\n".repeat(n)));
+    }
+    let ctxs: Vec<(&str, &str, &str, &str)> = vec![
+        ("doc", "Alpha beta", "gamma delta", ""),
+        ("block", "#[Alpha beta", "gamma delta]", ""),
+        ("list", "- Alpha beta", "  gamma delta", ""),
+        ("strong", "*Alpha beta", "gamma delta*", ""),
+        ("nested", "#g[#[Alpha", "beta]]", ""),
+        ("heading_then", "= Alpha", "beta", ""),
+        ("code_args", "#f(a,", "b)", ""),
+        ("code_block", "#{a", "b}", ""),
+        ("math", "$x", "y$", ""),
+        ("after_hash", "#a", "b", ""),
+    ];
+    let mut out = vec![];
+    for (cn, pre, post, _) in &ctxs {
+        for (sl, st) in &spellings {
+            out.push((format!("ws:{cn}:{sl}"), format!("{pre}{st}{post}")));
         }
     }
     out
